@@ -47,6 +47,9 @@ def run(ctx):
     default_protocol(ctx, "R6", n)
     redirection_sees_decoded_letters(ctx, "R8")
     Q.rule_space(ctx, "R9")
+    ctx.rule("R10", "the '&amp;' repair sees through canonical respelling: fix_common_query_mistakes, interpreted on every spelling of the entity (case, ';' as %3B / %3b, several per query) and on look-alikes, rewrites exactly the entities (canonicalize_url unescapes %3B, so both spellings must be one mistake)")
+    from .c05 import mistakes_language
+    mistakes_language(ctx, "R10")
 
 
 def default_protocol(ctx, rule, n):
